@@ -35,7 +35,19 @@ def cmd_check(prop, tier):
     except ValueError:
         seed = abs(hash(seed)) % (2 ** 31)
     mod = importlib.import_module("lib.props.%s" % prop.lower())
-    return mod.run(tier, seed)
+    try:
+        return mod.run(tier, seed)
+    except Exception:
+        # the machinery itself failed on what the implementation answered (an answer of a shape it has never seen): the property is
+        # not shown to hold by this run; say so in the interface's terms instead of dying without a VIOLATION line
+        import traceback
+        tb = traceback.format_exc()
+        path = core.write_replay(prop, {"property": prop, "what": "the check could not be completed: its harness failed on the implementation's answers",
+                                        "no_longer_checks": "harness of lib/props/%s.py (traceback below)" % prop.lower(), "traceback": tb[-4000:],
+                                        "tier": tier, "seed": seed})
+        sys.stderr.write(tb)
+        print("VIOLATION property=%s replay=%s no-failing-input-found" % (prop, path))
+        return 1
 
 
 def cmd_replay(path):
